@@ -603,3 +603,24 @@ func TestD22GrpcUnparsableIndexIsInvalidArgument(t *testing.T) {
 		}
 	}
 }
+
+// ---- D23 (C15) ----
+func TestD23GrpcBasicComputeWithoutParams(t *testing.T) {
+	ctx := context.Background()
+	core, err := server.NewCore(ctx)
+	if err != nil {
+		t.Fatal(err)
+	}
+	cs := grpcserver.NewGrpcServer(core)
+	func() {
+		defer func() {
+			if p := recover(); p != nil {
+				t.Fatalf("BasicCompute on a request without params panics (a gRPC server process exits on a handler panic): %v", p)
+			}
+		}()
+		_, err := cs.BasicCompute(ctx, &computepb.BasicComputeRequest{})
+		if c := status.Code(err); c != codes.InvalidArgument && c != codes.NotFound {
+			t.Fatalf("BasicCompute without params -> %v, want InvalidArgument", c)
+		}
+	}()
+}
